@@ -24,13 +24,13 @@ Before(em, i) == IF i = 1 THEN 0 ELSE Before(em, i - 1) + Cardinality(em[i - 1].
 EmOK(em, flat) ==
   /\ Len(flat) = Before(em, Len(em) + 1)
   /\ \A i \in DOMAIN em :
-       LET b  == Enc(em[i].f)
+       LET bs == EncAlts(em[i].f)         \* the byte string(s) the property accepts for this frame
            lo == Before(em, i)
            n  == Cardinality(em[i].ports) IN
        /\ {flat[lo + j].port : j \in 1..n} = em[i].ports
-       /\ \A j \in 1..n : flat[lo + j].b = b
+       /\ \A j \in 1..n : flat[lo + j].b \in bs
 PinMatch(e, o) == /\ o.inport = e.inport /\ o.reason = e.reason /\ o.total = e.total
-                  /\ o.data = SubSeq(Enc(e.f), 1, e.dlen)
+                  /\ \E b \in EncAlts(e.f) : o.data = SubSeq(b, 1, e.dlen)
 PinsAre(pins, obs) == Len(pins) = Len(obs) /\ \A j \in DOMAIN pins : PinMatch(pins[j], obs[j])
 PinsOK(pins, obs) == IF PinsAre(pins, obs) THEN TRUE
                      ELSE PinsAre(SelectSeq(pins, LAMBDA e : ~e.opt), obs)
